@@ -63,7 +63,8 @@ def image_as_tar_expectation(summary, no_xattr=False, no_links=False):
     """what sqfs2tar (no --root-becomes) should emit for this image: everything but the root and sockets"""
     exp, links = {}, []
     first = {}
-    for path in sorted(summary):
+    # sqfs2tar walks the tree depth first with sorted names: order by path *components* ('l/x' comes before 'l.y/a' although '.' < '/')
+    for path in sorted(summary, key=lambda p: p.split(b"/")):
         if path == b"":
             continue
         t, mode, uid, gid, mtime, extra, xa, ino, nlink = summary[path]
@@ -96,7 +97,7 @@ def path_option_expectation(summary, subdirs, keep_as_dir, root_becomes, no_xatt
     full = {}
     for path in sorted(summary):
         t, mode, uid, gid, mtime, extra, xa, ino, nlink = summary[path]
-        if path == b"" or t == "sock" or any(summary.get(path[:i], ("",))[0] == "sock" for i in range(len(path))):
+        if path == b"" or t == "sock" or any(summary.get(path[:i], ("",))[0] == "sock" for i in range(len(path)) if path[i:i + 1] == b"/"):
             continue
         full[path] = (t, mode, uid, gid, mtime, extra, () if no_xattr else tuple(xa))
     sel = {}
